@@ -107,7 +107,7 @@ def h_overwrite(env, ext=".mrc"):
     env.check("overwrite_true_replaces", env.eq(get(i[0], i[1], i[2]), at(y, i)))
 
 
-def h_convert(env, direction="em2mrc", invert=False, explicit_name=False, dtype="float32", overwrite_case=False, base="vol"):
+def h_convert(env, direction="em2mrc", invert=False, explicit_name=False, dtype="float32", overwrite_case=False, base="vol", positional=False):
     cm = env.module("cryomap")
     n, i, x = _array(env, dtype)
     src_ext, dst_ext = (".em", ".mrc") if direction == "em2mrc" else (".mrc", ".em")
@@ -123,14 +123,21 @@ def h_convert(env, direction="em2mrc", invert=False, explicit_name=False, dtype=
         cm.write(x * 3, dst)
         raised = False
         try:
-            fn(src, invert=invert, overwrite=False, **kw)
+            if positional:
+                fn(src, invert, False, dst)
+            else:
+                fn(src, invert=invert, overwrite=False, **kw)
         except Exception:
             raised = True
         env.check("conversion_refuses_to_overwrite", env.true() if raised else _false(env))
         fmt, ddt, dims, get = env.file_view(dst)
         env.check("target_unchanged_after_refusal", env.eq(get(i[0], i[1], i[2]), at(x, i) * 3))
         return
-    fn(src, invert=invert, **kw)
+    if positional:
+        # the documented parameter order is (map_name, invert, overwrite, output_name)
+        fn(src, invert, True, kw["output_name"]) if explicit_name else fn(src, invert)
+    else:
+        fn(src, invert=invert, **kw)
     env.check("output_exists", env.true() if env.file_exists(dst) else _false(env))
     if not env.file_exists(dst):
         return
@@ -171,6 +178,8 @@ def jobs(tier, seed):
           ("h_convert", {"direction": "em2mrc", "base": "template"}), ("h_convert", {"direction": "em2mrc", "base": "tomogram", "invert": True}),
           ("h_convert", {"direction": "mrc2em", "base": "scheme"}), ("h_convert", {"direction": "mrc2em", "base": "map.v2.rc", "dtype": "int16"}),
           ("h_convert", {"direction": "em2mrc", "base": "ref.recentered"}), ("h_convert", {"direction": "mrc2em", "base": "tilt.stack.mrc_converted", "invert": True}),
+          ("h_convert", {"direction": "em2mrc", "invert": True, "positional": True}), ("h_convert", {"direction": "mrc2em", "invert": True, "positional": True, "explicit_name": True}),
+          ("h_convert", {"direction": "em2mrc", "invert": True, "overwrite_case": True, "positional": True}), ("h_convert", {"direction": "mrc2em", "overwrite_case": True, "positional": True}),
           ("h_convert", {"direction": "em2mrc", "overwrite_case": True}), ("h_convert", {"direction": "mrc2em", "overwrite_case": True, "explicit_name": True}),
           ("h_invert", {"dtype": "float64", "ext": ".mrc"}), ("h_invert", {"dtype": "int16", "ext": ".em"})]
     if tier == "thorough":
